@@ -385,3 +385,17 @@ Definition agree_C19 (c : case) : bool :=
      | None => false end.
 
 Definition run_cases := run_cases_gen agree_C19 ok_C19 kf_C19.
+
+(** * A concrete state used by the non-vacuity examples: a slave with a Duration
+    whose bits exceed 64 bits, a path trace, a P2P port, no UTC offset. *)
+Definition ex_state : obs_state :=
+  mkObs "0.4.0" "e188e85" "2025-03-13" (s2c "12.5")
+        [156; 107; 0; 5; 23; 33; 0; 0] 1 (mkCQ 248 (AccUnit "Unknown") 26880) 128 128 0 false 0
+        1 (-42949672960000000001) 1073741824000
+        (mkPI [0; 14; 254; 255; 254; 3; 0; 81] 1) [0; 14; 254; 255; 254; 3; 0; 81]
+        (mkCQ 6 (AccProfile 5) 20061) 128 127
+        None Leap61 true false true (TsUnit "Gnss")
+        [[0; 14; 254; 255; 254; 3; 0; 81]; [1; 2; 3; 4; 5; 6; 7; 8]] true
+        [mkPort (mkPI [156; 107; 0; 5; 23; 33; 0; 0] 1) "Slave" 1 3 0 (DmP2P (-3) 98304) 2 1 (-65536) false].
+Definition ex_toks : ftoks := mkFt (s2c "12.5") (s2c "-10.000000000000000233") (s2c "0.00000025") [s2c "1.5"].
+
